@@ -320,7 +320,7 @@ class Source:
 
     def class_body(self, cls):
         """(open_brace_pos, close_brace_pos) of class/struct definition"""
-        pat = re.compile(r'\b(?:class|struct)\s+(?:MEDDLY\s*::\s*)?(?:\w+\s*::\s*)*' + re.escape(cls) + r'\b(?!\s*::)[^;{()]*\{')
+        pat = re.compile(r'\b(?:class|struct|union)\s+(?:MEDDLY\s*::\s*)?(?:\w+\s*::\s*)*' + re.escape(cls) + r'\b(?!\s*::)[^;{()]*\{')
         ms = list(pat.finditer(self.blank))
         if not ms:
             raise ExtractError("class %s not found in %s" % (cls, self.rel))
